@@ -407,6 +407,10 @@ def run_indicator_task(source, contracts, loops, spec, variant, natives=None, ti
             if spec.window is not None:
                 W = to_int_term(SpecEval(ex, st, env).ev(spec.window))
                 ser.read_frame = (z3.If(i - W > 0, i - W, 0), i)
+            if spec.window is not None:
+                # work bound: iteration spaces inside the step have at most window + 2 elements
+                ctx.cost_bound = to_int_term(SpecEval(ex, st, env).ev(spec.window)) + 2
+                ctx.props_cost = True
             ser.write_keys = set([N] + helpers)
             ser.write_index = i
             ser.own_keys = set([N] + helpers)
